@@ -25,7 +25,12 @@ pub fn min_size_collect_fields<I: FieldIter>(fields: &I) -> TokenStream {
 
 pub fn min_size_const(_ctx: &Context, input: &DeriveInput) -> TokenStream {
     let value = match &input.data {
-        Data::Struct(struct_data) => min_size_collect_fields(&struct_data.fields),
+        Data::Struct(struct_data) => {
+            let contents = min_size_collect_fields(&struct_data.fields);
+            quote! {
+                ::flatty::utils::ceil_mul(#contents, <Self as ::flatty::traits::FlatBase>::ALIGN)
+            }
+        }
         Data::Enum(enum_data) => {
             let contents = enum_data.variants.iter().enumerate().fold(quote! {}, |accum, (index, _var)| {
                 let var_min_size = quote! { Self::DATA_MIN_SIZES[#index] };
